@@ -157,11 +157,13 @@ CLAIMED = {
          "result is herm(Dspec + term) (three branches incl. Gamma without direction = uncorrected). Lemmas over that contract: the term is homogeneous of "
          "degree 0 in n (exact identity, sympy), vanishes for zero Born charges, and at q = 0 enters the Fourier sum as (number of images of j) x term with "
          "zero imaginary part (two inductions over the recursive sums; cos 0 = 1, sin 0 = 0). Gonze-Lee: multiply_borns_at_ij / multiply_borns contract "
-         "dd[i,a,j,b] += sum_{m,n} Z_i[m][a] dd_in[i,m,j,n] Z_j[n][b] with frame, both OpenMP branches, race freedom and bounds with the callee inlined. "
+         "dd[i,a,j,b] += sum_{m,n} Z_i[m][a] dd_in[i,m,j,n] Z_j[n][b] with frame, both OpenMP branches, race freedom and bounds with the callee inlined; the "
+         "reciprocal-space sum get_dd / get_dd_at_g: KK[g] is K K^T/(K.eps.K) exp(-K.eps.K/4 lambda^2) for |K| >= tolerance, the direction term (or zero) "
+         "below it, race free under its omp pragma, and dd_part[i,a,j,b] += sum_g KK[g][a][b] e^{2 pi i (x_i - x_j).G_g} with frame. "
          "Python: DynamicalMatrixNAC.nac_factor after setting NAC parameters is the new factor x 4 pi / volume for an object in any prior state; "
-         "BrillouinZone coordinate changes keep the Cartesian q-point (exact identities).",
-    note=TRUST + "NOT decided: vanishing of the image phase sum at non-zero commensurate q (finite geometric sum; makes the Wang term a no-op there), the Gonze-Lee "
-         "reciprocal-space sum and its stated precision, symmetrize_borns_and_epsilon, the Q_DIRECTION_TOLERANCE switch of DynamicalMatrixNAC.run.",
+         "the Cartesian q handed to the Gonze-Lee kernel is rec_lat.q; BrillouinZone coordinate changes keep the Cartesian q-point (exact identities).",
+    note=TRUST + "NOT decided: vanishing of the image phase sum at non-zero commensurate q (finite geometric sum; makes the Wang term a no-op there), the convergence / "
+         "stated precision of the Gonze-Lee sums and the real-space part, dym_get_recip_dipole_dipole driver, symmetrize_borns_and_epsilon, the Q_DIRECTION_TOLERANCE switch of DynamicalMatrixNAC.run.",
     technique="deductive verification: kernel contracts (z3), exact rational identities (sympy), induction lemmas over recursive sums",
     design="DESIGN.md section 5 C08"),
  "C19": dict(
